@@ -4,6 +4,7 @@ import NssVerif.Lemmas.Slice
 import NssVerif.Lemmas.MinEnergy
 import NssVerif.Lemmas.VecBatch
 import NssVerif.Props.C07
+import NssVerif.Gen.Src.C18
 import Mathlib.Tactic.IntervalCases
 
 /-!
@@ -217,5 +218,41 @@ example : vecInterp1 ([0, 1, 1, 4, 9] : List ℝ) [10, 20, 30, 40, 50] 3 = some 
   have : 2 = k := huniq 2 (by simp) (by simp; norm_num)
   subst this
   simpa using hres
+
+/-! ### source tie: the two-point blend of `vec_1d_interp` as translated from the Python source IS the model's `twoPoint`
+
+`Gen/Src/C18.lean` is regenerated from `utils/interp.py` on every run (harness/pytrans.py, harness/srcspecs/C18.py).  Only the
+last statement of `vec_1d_interp` is arithmetic on real numbers; the mask / shift / xor bracketing in front of it (Boolean and
+integer array work: `np.where`, fancy indexing) stays the hand-written model `hiM / loM / trueIdx`, whose selections
+`x0 = xs[lo_m]`, `y0 = ys[lo]`, `x1 = xs[hi_m]`, `y1 = ys[hi]` are the inputs of the translated function. -/
+
+/-- the blend as the source writes it is `Model.Interp.twoPoint` (for every `Scalar`: over ℝ and at `Float`) -/
+theorem src_vec1dInterp {α : Type} [Scalar α] (x y0 x0 y1 x1 : α) :
+    Gen.Src.C18.vec1dInterp x y0 x0 y1 x1 = twoPoint x x0 y0 x1 y1 := by rfl
+
+/-- one row of `vec_1d_interp`: when each bracketing mask has exactly one `true` (positions `hi`, `lo`), the model's row result is
+the translated blend of the selected nodes -/
+theorem src_vecInterp1 {α : Type} [Scalar α] (xs ys : List α) (x : α) (hi lo : Nat)
+    (hH : trueIdx (hiM xs x) = [hi]) (hL : trueIdx (loM xs x) = [lo]) :
+    vecInterp1 xs ys x = some (Gen.Src.C18.vec1dInterp x (ys.getD lo 0) (xs.getD lo 0) (ys.getD hi 0) (xs.getD hi 0)) := by
+  unfold vecInterp1; rw [hH, hL]; rfl
+
+/-- hence, on every non-decreasing row and every query strictly inside its range, the translated blend — fed with the nodes of
+the unique bracket `xs[k] < x ≤ xs[k+1]`, which is what the masks select (`lo_m` marks k+1, `hi_m` marks k) — is ordinary
+piecewise-linear interpolation -/
+theorem src_vec1dInterp_plin (xs ys : List ℝ) (x : ℝ) (hmono : Bracket.Mono xs) (hne : xs ≠ [])
+    (hfirst : xs.head hne < x) (hlast : x ≤ xs.getLast hne) :
+    ∃ k, ∃ _ : k + 1 < xs.length, xs[k] < x ∧ x ≤ xs[k+1] ∧
+      vecInterp1 xs ys x = some (Gen.Src.C18.vec1dInterp x (ys.getD (k+1) 0) xs[k+1] (ys.getD k 0) xs[k]) ∧
+      Gen.Src.C18.vec1dInterp x (ys.getD (k+1) 0) xs[k+1] (ys.getD k 0) xs[k]
+        = ys.getD k 0 + (x - xs[k]) * ((ys.getD (k+1) 0 - ys.getD k 0) / (xs[k+1] - xs[k])) := by
+  obtain ⟨k, hk, h1, h2, hres⟩ := vecInterp1_spec xs ys x hmono hne hfirst hlast
+  refine ⟨k, hk, h1, h2, hres, ?_⟩
+  rw [src_vec1dInterp]
+  unfold twoPoint
+  have hd : xs[k] - xs[k+1] ≠ 0 := by intro h; linarith
+  have hd' : xs[k+1] - xs[k] ≠ 0 := by intro h; linarith
+  field_simp
+  ring
 
 end C18
